@@ -24,7 +24,8 @@ Forms(list) ==
   IF list = <<>> THEN { <<>> }
   ELSE LET n == Len(list)
            RunConst(L) == list[1].t # "a" /\ \A i \in 1..L : list[i] = list[1]
-           RunArith(L) == /\ list[1].t \in Numeric /\ \A i \in 1..L : list[i].t = list[1].t
+           Finite(x) == x.v < 2000000 /\ x.v > 0 - 2000000          \* +-2000000 stand for the infinities: they repeat, but take no part in arithmetic runs
+           RunArith(L) == /\ list[1].t \in Numeric /\ \A i \in 1..L : list[i].t = list[1].t /\ Finite(list[i])
                           /\ list[2].v # list[1].v /\ \A i \in 2..L : list[i].v - list[i - 1].v = list[2].v - list[1].v
            Rest(L) == Forms(SubSeq(list, L + 1, n)) IN
        { <<[k |-> "one", x |-> list[1]]>> \o r : r \in Rest(1) }
